@@ -23,7 +23,7 @@ from .common import muted, rng, shard_slice
 
 LEVEL = 'exploration'
 RULE = ('loop-back runs of the real serializer/clock-recovery/deserializer over (f_sys/f_uart request 4..40 incl. odd and '
-        'non-integer, a geometric boundary family 2**k-2..2**k+2 up to 2**11 (thorough 2**13) and real clock/baud pairs up to 5208, '
+        'non-integer, a geometric boundary family 2**k-2..2**k+2 up to 2**14 (thorough 2**17) and real clock/baud pairs up to 10416 (thorough 41666), '
         'one long-lived link of > 2**16 uart ticks (thorough 16 links > 2**17), byte sequence, producer gap schedule, oblivious receiver ready schedule, instantiation order); '
         'an evaluation is one accepted byte judged by the delivery and the line oracle; a non-trivial distinct case is '
         '(ratio request, byte value, previous byte value, phase of the acceptance cycle within the bit period, gap mode, '
@@ -43,10 +43,12 @@ FU_VARIANTS = [1, 2, 115200, 1e6, 3]          # the same ratio requested through
 REAL_PAIRS = [(50e6, 115200), (100e6, 921600), (12e6, 115200), (25e6, 1e6), (48e6, 3e6), (27e6, 1e6), (14.7456e6, 115200),
               (16e6, 1.5e6), (29e6, 2e6), (50e6, 230400 * 8)]
 # large-ratio family: around every power of two 2**k (the divider's counter gets one bit wider there) and real clock / baud pairs
-LARGE_K = {'quick': range(6, 12), 'thorough': range(6, 14)}
-LARGE_BANDS = {'quick': range(6, 13), 'thorough': range(6, 14)}     # bit periods around 2**k that must have been observed (real pairs included)
+# (k >= 12 in quick, k >= 14 in thorough: one offset per k and one byte / two bytes per run -- a byte costs ~10.5 * 2**k system clocks)
+LARGE_K = {'quick': range(6, 15), 'thorough': range(6, 18)}
+LARGE_BANDS = {'quick': range(6, 15), 'thorough': range(6, 18)}     # bit periods around 2**k that must have been observed (real pairs included)
 LARGE_OFFSETS = [-2, -1, 0, 1, 2]
-LARGE_REAL = {'quick': [(50e6, 9600)], 'thorough': [(50e6, 9600), (100e6, 115200), (12e6, 9600), (50e6, 19200), (100e6, 9600), (25e6, 57600)]}
+LARGE_REAL = {'quick': [(50e6, 9600), (100e6, 9600)],
+              'thorough': [(50e6, 9600), (100e6, 115200), (12e6, 9600), (50e6, 19200), (100e6, 9600), (25e6, 57600), (100e6, 4800), (200e6, 9600), (100e6, 2400)]}
 # long-lived links: one link instance carries traffic for more uart clock ticks than any 8/10/12/16(/17)-bit counter can hold
 LONG_TICKS = {'quick': 2 ** 16 + 2 ** 12, 'thorough': 2 ** 17 + 2 ** 12}
 SPECIAL_BYTES = [0x00, 0xFF, 0x55, 0xAA, 0x01, 0x80, 0x7F, 0xFE, 0x0F, 0xF0]
@@ -799,23 +801,26 @@ def make_data(kind, n, rnd):
 
 
 def plan_large_ratios(tier, rnd):
-    """Geometric / boundary family of LARGE ratios ("every ratio of at least 4"): 2**k + {-2..2} for every k up to 11 (quick: two
-    of the five offsets per k, drawn per seed; one for the top k) / 13 (thorough: all five), plus real clock / baud pairs up to
-    50 MHz / 9600 (= 5208 clocks per bit, quick) / 100 MHz / 9600 (thorough).  A byte costs ~11 bit periods, so each run carries few bytes (quick: 3 below 1000
+    """Geometric / boundary family of LARGE ratios ("every ratio of at least 4"): 2**k + {-2..2} for every k up to 14 (quick: two
+    of the five offsets per k, drawn per seed; one for k >= 11, one byte per run for k >= 12) / 17 (thorough: all five up to 13, one above), plus real clock / baud pairs up to
+    100 MHz / 9600 (= 10416 clocks per bit, quick) / 100 MHz / 2400 (thorough).  A byte costs ~11 bit periods, so each run carries few bytes (quick: 3 below 1000
     clocks per bit, 2 above; thorough 4), always with a back-to-back pair, every other run with offer-phase gaps."""
     specs = []
     j = 0
     for k in LARGE_K[tier]:
-        offs = LARGE_OFFSETS if tier != 'quick' else sorted(rnd.sample(LARGE_OFFSETS, 1 if k == max(LARGE_K[tier]) else 2))
+        if tier == 'quick':
+            offs = sorted(rnd.sample(LARGE_OFFSETS, 1 if k >= 11 else 2))
+        else:
+            offs = LARGE_OFFSETS if k <= 13 else rnd.sample(LARGE_OFFSETS, 1)
         for o in offs:
             r = 2 ** k + o
             fu = FU_VARIANTS[j % len(FU_VARIANTS)]
-            n = 4 if tier != 'quick' else 3 if r < 1000 else 2
+            n = (4 if k <= 13 else 2) if tier != 'quick' else 3 if r < 1000 else 2 if r < 4000 else 1
             specs.append(dict(fs=r * fu, fu=fu, kind=['random', 'special', 'toggle'][j % 3], n=n, gap=['none', 'phase'][j % 2],
                               ready=['always', 'rand', 'always', 'worst'][j % 4], order=j % 3, cls='large_ratio', tail_slack_bits=0.25))
             j += 1
     for fs, fu in LARGE_REAL[tier]:
-        specs.append(dict(fs=fs, fu=fu, kind='random', n=2 if tier == 'quick' else 4, gap=['none', 'phase'][j % 2], ready='always',
+        specs.append(dict(fs=fs, fu=fu, kind='random', n=(2 if fs / fu < 8000 else 1) if tier == 'quick' else 4 if fs / fu < 16000 else 2, gap=['none', 'phase'][j % 2], ready='always',
                           order=j % 3, cls='large_ratio', tail_slack_bits=0.25))
         j += 1
     return specs
